@@ -52,7 +52,7 @@ Lemma AN_some_normal d l r rl a :
     Ok (Qeq_bool l r || (Qle_bool (Qabs (r - l)) (rl * Qabs r) || Qle_bool (Qabs (r - l)) a)).
 Proof.
   intros Hr Ha. unfold approx_numbers.
-  cbn [QO n_eqb n_isnan n_isinf n_abs n_ltb n_leb n_mul n_sub n_zero xeqb xabs xisnan xisinf xltb xleb xmul xsub].
+  cbn [QO n_eqb n_isnan n_isinf n_abs n_ltb n_leb n_mul n_sub n_zero xeqb xabs xisnan xisinf xltb xleb xmul xsub orb].
   destruct (Qeq_bool l r); [reflexivity|]. cbn [orb].
   apply Qle_bool_iff in Ha. rewrite Ha. cbn [negb].
   assert (Hrt : 0 <= rl * Qabs r) by (apply Qmult_le_0_compat; [exact Hr | apply Qabs_nonneg]).
@@ -148,19 +148,48 @@ Proof.
   rewrite E. f_equal. f_equal. apply orb_comm.
 Qed.
 
-(* ... but NOT for an infinite left operand: approx_equal_numbers(inf, 1.0) is True, (1.0, inf) is False
-   (absolute tolerance abs(lhs * rel) = inf).  Replayed on the implementation by the harness. *)
-Theorem approx_symmetric_infinite_refuted :
-  exists dflt l r,
-    approx_numbers QO dflt l r None None = Ok true /\ approx_numbers QO dflt r l None None = Ok false.
-Proof. exists (XQ (1 # 1000)), XPInf, (XQ 1). vm_compute. split; reflexivity. Qed.
+(* an infinite number is approximately equal only to itself (first branch of approx_equal_numbers, commit 7783335),
+   whatever the tolerances *)
+Theorem approx_infinite_only_equal_to_itself dflt (l r : xq) rel abs :
+  xisinf l || xisinf r = true -> approx_numbers QO dflt l r rel abs = Ok (xeqb l r).
+Proof. intros H. unfold approx_numbers. cbn [QO n_isinf n_eqb]. rewrite H. reflexivity. Qed.
+
+Lemma xeqb_sym a b : xeqb a b = xeqb b a.
+Proof.
+  destruct a as [x| | |], b as [y| | |]; cbn [xeqb]; try reflexivity.
+  destruct (Qeq_bool x y) eqn:A, (Qeq_bool y x) eqn:B; try reflexivity.
+  - apply Qeq_bool_iff in A. symmetry in A. apply Qeq_bool_iff in A. congruence.
+  - apply Qeq_bool_iff in B. symmetry in B. apply Qeq_bool_iff in B. congruence.
+Qed.
+
+(* symmetry of the verdict over ALL operands -- finite, infinite and NaN -- without an absolute tolerance *)
+Theorem approx_symmetric_extended dflt (l r : xq) rel :
+  0 <= rel_eff dflt rel ->
+  (approx_numbers QO (XQ dflt) l r (oxq rel) None = Ok true <-> approx_numbers QO (XQ dflt) r l (oxq rel) None = Ok true).
+Proof.
+  intros Hr.
+  destruct (xisinf l || xisinf r) eqn:I.
+  - rewrite (approx_infinite_only_equal_to_itself _ l r _ _ I).
+    rewrite orb_comm in I. rewrite (approx_infinite_only_equal_to_itself _ r l _ _ I), xeqb_sym. reflexivity.
+  - destruct l as [x| | |], r as [y| | |]; try discriminate I.
+    + change (ANq dflt x y rel None = Ok true <-> ANq dflt y x rel None = Ok true).
+      rewrite (approx_symmetric_without_abs dflt x y rel Hr). reflexivity.
+    + (* finite vs NaN: False one way, ValueError the other; neither passes *)
+      destruct rel; split; intros H; vm_compute in H; try discriminate H;
+        unfold approx_numbers in H; cbn [QO n_isinf n_eqb n_isnan n_abs n_mul n_ltb n_zero xisinf xeqb xisnan xabs xmul xltb orb oxq] in H;
+        repeat match type of H with context [if ?b then _ else _] => destruct b end; discriminate H.
+    + destruct rel; split; intros H;
+        unfold approx_numbers in H; cbn [QO n_isinf n_eqb n_isnan n_abs n_mul n_ltb n_zero xisinf xeqb xisnan xabs xmul xltb orb oxq] in H;
+        repeat match type of H with context [if ?b then _ else _] => destruct b end; discriminate H.
+    + split; intros H; vm_compute in H; destruct rel; discriminate H.
+Qed.
 
 (* a negative tolerance is an error unless the operands are equal *)
 Theorem approx_negative_tolerance dflt l r rel a :
   ~ l == r -> a < 0 -> ANq dflt l r rel (Some a) = Err E_VALUE.
 Proof.
   intros Hne Ha. unfold ANq, approx_numbers.
-  cbn [oxq QO n_eqb n_isnan n_isinf n_abs n_ltb n_zero xeqb xabs xisnan xisinf xltb].
+  cbn [oxq QO n_eqb n_isnan n_isinf n_abs n_ltb n_zero xeqb xabs xisnan xisinf xltb orb].
   destruct (Qeq_bool l r) eqn:E; [apply Qeq_bool_iff in E; contradiction|].
   apply Qle_bool_false in Ha. rewrite Ha. reflexivity.
 Qed.
@@ -262,6 +291,17 @@ Proof.
   destruct abs as [a|]; cbn [within] in H1, H2.
   - rewrite (approx_accepts_abs dflt iml imr rel a Hr H2), (approx_accepts_abs dflt rel_l rer rel a Hr H1). reflexivity.
   - rewrite (approx_accepts_rel dflt iml imr rel Hr H2), (approx_accepts_rel dflt rel_l rer rel Hr H1). reflexivity.
+Qed.
+
+(* an infinite real part against a different real part never passes, in either order, whatever the tolerances *)
+Theorem assert_equal_infinite_rejects dflt (l r : aq QO) rel abs dimension :
+  xisinf (aq_re l) || xisinf (aq_re r) = true -> xeqb (aq_re l) (aq_re r) = false ->
+  assert_equal QO dflt (OQ l) (OQ r) rel abs dimension <> None.
+Proof.
+  intros I E. unfold assert_equal. cbn [build]. unfold approx_quantities_core.
+  destruct (dim_gate QO l r); [discriminate|].
+  destruct (approx_numbers QO dflt (aq_im l) (aq_im r) rel abs) as [[|]|]; try discriminate.
+  rewrite (approx_infinite_only_equal_to_itself dflt _ _ rel abs I), E. discriminate.
 Qed.
 
 (* symmetric verdict (pass / fail) without an absolute tolerance, for finite quantities that are not wildcards *)
@@ -390,6 +430,15 @@ Proof. vm_compute. reflexivity. Qed.
 Example ex_vector_length :
   assert_equal_vectors QO dflt_q [fq (VQ 1) 1 0 d_len; fq (VQ 2) 2 0 d_len] [fq (VQ 1) 1 0 d_len] None None None = Some E_VALUE.
 Proof. vm_compute. reflexivity. Qed.
+
+Example ex_infinite_lhs : approx_numbers QO dflt_q XPInf (XQ 1) None None = Ok false /\ approx_numbers QO dflt_q (XQ 1) XPInf None None = Ok false
+  /\ approx_numbers QO dflt_q XPInf XPInf None None = Ok true /\ approx_numbers QO dflt_q XNInf XPInf None None = Ok false.
+Proof. vm_compute. repeat split; reflexivity. Qed.
+
+Example ex_infinite_float :
+  approx_numbers FO 0x1.0624dd2f1a9fcp-10%float infinity 1%float None None = Ok false /\
+  approx_numbers FO 0x1.0624dd2f1a9fcp-10%float infinity infinity None None = Ok true.
+Proof. vm_compute. split; reflexivity. Qed.
 
 Example ex_float_instance :
   approx_numbers FO 0x1.0624dd2f1a9fcp-10%float 0x1.004189374bc6ap+0%float 1%float None None = Ok true.
